@@ -930,14 +930,17 @@ func (ob *SuObject) Unique() {
 	if !ob.concurrent {
 		ob.list = unique(ob.list)
 	} else { // concurrent
+		// work on a private copy while unlocked so that concurrent readers
+		// never see the list half compacted; sorting blocks other writers
+		ob.sorting = true
+		defer func() { ob.sorting = false }()
+		list := slc.Clone(ob.list)
 		func() {
-			ob.sorting = true
-			defer func() { ob.sorting = false }()
 			ob.Unlock() // can't hold lock while calling Equal
 			defer ob.Lock()
-			ob.list = unique(ob.list)
-			// note: could become concurrent while unlocked
+			list = unique(list)
 		}()
+		ob.list = list
 	}
 }
 
